@@ -74,9 +74,9 @@ def body_reorged(ctx):
 
 def run(ctx):
     from pbt.checks import c03
-    hyp_run(ctx, 'c02.sync', case_strategy(), body(ctx), ctx.pick(120, 3000))
+    hyp_run(ctx, 'c02.sync', case_strategy(), body(ctx), ctx.pick(120, 10000), frac=0.5)
     hyp_run(ctx, 'c02.reorged', c03.case_strategy(ctx.tier == 'thorough'), body_reorged(ctx),
-            ctx.pick(80, 1500))
+            ctx.pick(80, 8000))
 
 
 def replay(ctx, check, case):
